@@ -1,4 +1,371 @@
 /-
-C06 — placeholder (theorems follow)
+C06 — Patterned tensors behave exactly like the dense tensors they denote.
+Theorems about the axis language and the meaning of a PatternedTensor (FggsModel/Axis.lean).
 -/
 import FggsModel.Axis
+import Mathlib.Tactic.Linarith
+import Mathlib.Tactic.Ring
+import Mathlib.Data.List.Basic
+
+set_option linter.unusedSimpArgs false
+set_option linter.unusedVariables false
+
+namespace C06
+open Fggs Fggs.Ax
+
+/-- an assignment of physical indices that respects the sizes of the axes occurring in `e` -/
+def Respects (ρ : Nat → Nat) (e : Axis) : Prop := ∀ p ∈ e.fv, ρ p.1 < p.2
+
+/-! ### helpers: accumulators -/
+
+private theorem evalList_acc (ρ : Nat → Nat) : ∀ (fs : List Axis) (acc : Nat),
+    evalList ρ fs acc = acc * numelList fs + evalList ρ fs 0
+  | [], acc => by simp [evalList, numelList]
+  | f :: fs, acc => by
+    rw [evalList, evalList, evalList_acc ρ fs (acc * f.numel + f.eval ρ),
+      evalList_acc ρ fs (0 * f.numel + f.eval ρ), numelList]
+    ring
+
+private theorem evalList_cons_zero (ρ : Nat → Nat) (f : Axis) (fs : List Axis) :
+    evalList ρ (f :: fs) 0 = f.eval ρ * numelList fs + evalList ρ fs 0 := by
+  rw [evalList, evalList_acc]; simp
+
+private theorem numelList_append : ∀ (as bs : List Axis),
+    numelList (as ++ bs) = numelList as * numelList bs
+  | [], bs => by simp [numelList]
+  | a :: as, bs => by
+    rw [List.cons_append, numelList, numelList, numelList_append as bs]; ring
+
+private theorem evalList_append (ρ : Nat → Nat) : ∀ (as bs : List Axis) (acc : Nat),
+    evalList ρ (as ++ bs) acc = evalList ρ bs (evalList ρ as acc)
+  | [], bs, acc => by simp [evalList]
+  | a :: as, bs, acc => by
+    rw [List.cons_append, evalList, evalList, evalList_append ρ as bs]
+
+/-! ### eval < numel -/
+
+mutual
+private theorem eval_lt_aux (ρ : Nat → Nat) : ∀ (e : Axis), (∀ p ∈ e.fv, ρ p.1 < p.2) → e.eval ρ < e.numel
+  | .phys v n, h => by
+    have := h (v, n) (by simp [Axis.fv])
+    simpa [Axis.eval, Axis.numel] using this
+  | .prod fs, h => by
+    rw [Axis.eval, Axis.numel]
+    exact evalList_lt_aux ρ fs (by simpa [Axis.fv] using h)
+  | .sum b t a, h => by
+    have := eval_lt_aux ρ t (by simpa [Axis.fv] using h)
+    rw [Axis.eval, Axis.numel]; omega
+private theorem evalList_lt_aux (ρ : Nat → Nat) : ∀ (fs : List Axis), (∀ p ∈ fvList fs, ρ p.1 < p.2) →
+    evalList ρ fs 0 < numelList fs
+  | [], _ => by simp [evalList, numelList]
+  | f :: fs, h => by
+    have h1 := eval_lt_aux ρ f (fun p hp => h p (by simp [fvList, hp]))
+    have h2 := evalList_lt_aux ρ fs (fun p hp => h p (by simp [fvList, hp]))
+    rw [evalList_cons_zero, numelList]
+    have h3 : (f.eval ρ + 1) * numelList fs ≤ f.numel * numelList fs := Nat.mul_le_mul_right _ h1
+    have h4 : (f.eval ρ + 1) * numelList fs = f.eval ρ * numelList fs + numelList fs := by ring
+    omega
+end
+
+/-- **a virtual index stays inside the axis's range** -/
+theorem eval_lt_numel (e : Axis) (ρ : Nat → Nat) (h : Respects ρ e) : e.eval ρ < e.numel :=
+  eval_lt_aux ρ e h
+
+/-! ### stride -/
+
+/-- the linear part of an affine form -/
+private def lin (ρ : Nat → Nat) : List (Nat × Nat) → Nat
+  | [] => 0
+  | p :: s => p.2 * ρ p.1 + lin ρ s
+
+private theorem foldl_lin (ρ : Nat → Nat) : ∀ (s : List (Nat × Nat)) (a : Nat),
+    s.foldl (fun acc p => acc + p.2 * ρ p.1) a = a + lin ρ s
+  | [], a => by simp [lin]
+  | p :: s, a => by rw [List.foldl_cons, foldl_lin ρ s, lin]; ring
+
+private theorem applyStride_eq (ρ : Nat → Nat) (o : Nat) (s : List (Nat × Nat)) :
+    applyStride (o, s) ρ = o + lin ρ s := by
+  simp [applyStride, foldl_lin]
+
+private theorem lin_append (ρ : Nat → Nat) : ∀ (s s' : List (Nat × Nat)),
+    lin ρ (s ++ s') = lin ρ s + lin ρ s'
+  | [], s' => by simp [lin]
+  | p :: s, s' => by rw [List.cons_append, lin, lin, lin_append ρ s s']; ring
+
+private theorem lin_scale (ρ : Nat → Nat) (n : Nat) : ∀ (s : List (Nat × Nat)),
+    lin ρ (s.map (fun p => (p.1, p.2 * n))) = lin ρ s * n
+  | [] => by simp [lin]
+  | p :: s => by rw [List.map_cons, lin, lin, lin_scale ρ n s]; ring
+
+private def keys (s : List (Nat × Nat)) : List Nat := s.map (·.1)
+
+private theorem upd_not_mem (v c : Nat) : ∀ (s : List (Nat × Nat)), v ∉ keys s →
+    s.map (fun p => if p.1 == v then (p.1, p.2 + c) else p) = s
+  | [], _ => rfl
+  | p :: s, h => by
+    simp only [keys, List.map_cons, List.mem_cons, not_or] at h
+    have hs := upd_not_mem v c s h.2
+    have hp : (p.1 == v) = false := by simpa using fun e => h.1 e.symm
+    rw [List.map_cons, hs, hp]; rfl
+
+private theorem lin_upd (ρ : Nat → Nat) (v c : Nat) : ∀ (s : List (Nat × Nat)), (keys s).Nodup → v ∈ keys s →
+    lin ρ (s.map (fun p => if p.1 == v then (p.1, p.2 + c) else p)) = lin ρ s + c * ρ v
+  | [], _, h => by simp [keys] at h
+  | p :: s, hn, h => by
+    simp only [keys, List.map_cons, List.nodup_cons] at hn
+    by_cases hp : p.1 = v
+    · have hv : v ∉ keys s := by rw [← hp]; exact hn.1
+      rw [List.map_cons, upd_not_mem v c s hv]
+      simp only [hp, beq_self_eq_true, if_true, lin]
+      rw [← hp]; ring
+    · have hv : v ∈ keys s := by
+        simp only [keys, List.map_cons, List.mem_cons] at h
+        rcases h with h | h
+        · exact absurd h.symm hp
+        · exact h
+      have ih := lin_upd ρ v c s hn.2 hv
+      have hp' : (p.1 == v) = false := by simpa using hp
+      rw [List.map_cons, hp']
+      simp only [Bool.false_eq_true, if_false]
+      rw [lin, ih, lin]; ring
+
+private theorem keys_upd (v c : Nat) (s : List (Nat × Nat)) :
+    keys (s.map (fun p => if p.1 == v then (p.1, p.2 + c) else p)) = keys s := by
+  simp only [keys, List.map_map]
+  apply List.map_congr_left
+  intro p _
+  by_cases hp : p.1 = v <;> simp [hp]
+
+private theorem any_iff_mem_keys (s : List (Nat × Nat)) (v : Nat) :
+    s.any (·.1 == v) = true ↔ v ∈ keys s := by
+  simp only [keys, List.any_eq_true, beq_iff_eq, List.mem_map]
+
+private theorem addCoeff_spec (ρ : Nat → Nat) (s : List (Nat × Nat)) (v c : Nat) (hn : (keys s).Nodup) :
+    lin ρ (addCoeff s v c) = lin ρ s + c * ρ v ∧ (keys (addCoeff s v c)).Nodup := by
+  unfold addCoeff
+  by_cases h : s.any (·.1 == v) = true
+  · rw [if_pos h]
+    have hv := (any_iff_mem_keys s v).1 h
+    exact ⟨lin_upd ρ v c s hn hv, by rw [keys_upd]; exact hn⟩
+  · rw [if_neg h]
+    have hv : v ∉ keys s := fun hv => h ((any_iff_mem_keys s v).2 hv)
+    refine ⟨by rw [lin_append]; simp [lin], ?_⟩
+    simp only [keys, List.map_append, List.map_cons, List.map_nil]
+    rw [List.nodup_append]
+    refine ⟨hn, by simp, ?_⟩
+    intro a ha b hb
+    simp only [List.mem_singleton] at hb
+    rintro rfl
+    exact hv (hb ▸ ha)
+
+private theorem foldl_addCoeff_spec (ρ : Nat → Nat) : ∀ (s' s : List (Nat × Nat)), (keys s).Nodup →
+    lin ρ (s'.foldl (fun acc p => addCoeff acc p.1 p.2) s) = lin ρ s + lin ρ s' ∧
+    (keys (s'.foldl (fun acc p => addCoeff acc p.1 p.2) s)).Nodup
+  | [], s, hn => by simp [lin, hn]
+  | p :: s', s, hn => by
+    have h1 := addCoeff_spec ρ s p.1 p.2 hn
+    have h2 := foldl_addCoeff_spec ρ s' (addCoeff s p.1 p.2) h1.2
+    rw [List.foldl_cons]
+    refine ⟨?_, h2.2⟩
+    rw [h2.1, h1.1, lin]; ring
+
+private theorem keys_scale (n : Nat) (s : List (Nat × Nat)) :
+    keys (s.map (fun p => (p.1, p.2 * n))) = keys s := by
+  simp [keys, List.map_map, Function.comp_def]
+
+mutual
+private theorem stride_aux (ρ : Nat → Nat) : ∀ (e : Axis), applyStride e.stride ρ = e.eval ρ
+  | .phys v n => by simp [Axis.stride, Axis.eval, applyStride]
+  | .prod fs => by
+    rw [Axis.stride, Axis.eval, strideList_aux ρ fs 0 [] (by simp [keys])]
+    simp [applyStride]
+  | .sum b t a => by
+    have ih := stride_aux ρ t
+    rw [Axis.stride, Axis.eval]
+    rcases h : t.stride with ⟨o, s⟩
+    rw [h, applyStride_eq] at ih
+    simp only [applyStride_eq]
+    omega
+private theorem strideList_aux (ρ : Nat → Nat) : ∀ (fs : List Axis) (o : Nat) (s : List (Nat × Nat)),
+    (keys s).Nodup →
+    applyStride (strideList fs (o, s)) ρ = applyStride (o, s) ρ * numelList fs + evalList ρ fs 0
+  | [], o, s, _ => by simp [strideList, numelList, evalList]
+  | f :: fs, o, s, hn => by
+    have ihf := stride_aux ρ f
+    rw [strideList]
+    rcases h : f.stride with ⟨o', s'⟩
+    rw [h, applyStride_eq] at ihf
+    have hsc : (keys (s.map (fun p => (p.1, p.2 * f.numel)))).Nodup := by rw [keys_scale]; exact hn
+    have hf := foldl_addCoeff_spec ρ s' _ hsc
+    simp only
+    rw [strideList_aux ρ fs _ _ hf.2, applyStride_eq, applyStride_eq, hf.1, lin_scale,
+      evalList_cons_zero, numelList, ← ihf]
+    ring
+end
+
+/-- **the affine form computed by `stride` is the index map**: offset + Σ coefficient · physical index -/
+theorem stride_eq_eval (e : Axis) (ρ : Nat → Nat) : applyStride e.stride ρ = e.eval ρ :=
+  stride_aux ρ e
+
+/-! ### row-major flattening -/
+
+private theorem foldl_mul (l : List Nat) : ∀ (a : Nat), l.foldl (· * ·) a = a * l.foldl (· * ·) 1 := by
+  induction l with
+  | nil => intro a; simp
+  | cons x l ih => intro a; rw [List.foldl_cons, List.foldl_cons, ih (a * x), ih (1 * x)]; ring
+
+private theorem numel_nil : numel [] = 1 := rfl
+
+private theorem numel_cons (x : Nat) (l : List Nat) : numel (x :: l) = x * numel l := by
+  unfold numel; rw [List.foldl_cons, foldl_mul]; ring
+
+private theorem numel_map_numel : ∀ (es : List Axis), numel (es.map Axis.numel) = numelList es
+  | [] => by simp [numel_nil, numelList]
+  | e :: es => by rw [List.map_cons, numel_cons, numel_map_numel es, numelList]
+
+/-- `evalList_eq_flat` holds for every assignment; the `Respects` hypothesis is not needed -/
+theorem evalList_eq_flat' (es : List Axis) (ρ : Nat → Nat) :
+    (Axis.prod es).eval ρ = flat (es.map Axis.numel) (es.map (Axis.eval ρ)) := by
+  rw [Axis.eval]
+  induction es with
+  | nil => simp [evalList, flat]
+  | cons e es ih =>
+    rw [evalList_cons_zero, List.map_cons, List.map_cons, flat, numel_map_numel, ih]
+
+/-- row-major flattening of the virtual indices of several axes is the virtual index of their product -/
+theorem evalList_eq_flat (es : List Axis) (ρ : Nat → Nat) (h : ∀ e ∈ es, Respects ρ e) :
+    (Axis.prod es).eval ρ = flat (es.map Axis.numel) (es.map (Axis.eval ρ)) :=
+  evalList_eq_flat' es ρ
+
+/-! ### productAxis -/
+
+private def flat1 (fs : List Axis) : List Axis :=
+  fs.flatMap (fun f => match f with | .prod gs => gs | e => [e])
+
+private theorem flat1_cons (f : Axis) (fs : List Axis) :
+    flat1 (f :: fs) = (match f with | .prod gs => gs | e => [e]) ++ flat1 fs := by
+  simp [flat1]
+
+private theorem numelList_flat1 : ∀ (fs : List Axis), numelList (flat1 fs) = numelList fs
+  | [] => by simp [flat1]
+  | f :: fs => by
+    rw [flat1_cons, numelList_append, numelList_flat1 fs, numelList]
+    cases f <;> simp [numelList, Axis.numel]
+
+private theorem evalList_flat1 (ρ : Nat → Nat) : ∀ (fs : List Axis) (acc : Nat),
+    evalList ρ (flat1 fs) acc = evalList ρ fs acc
+  | [], acc => by simp [flat1]
+  | f :: fs, acc => by
+    rw [flat1_cons, evalList_append, evalList_flat1 ρ fs, evalList]
+    cases f with
+    | prod gs => simp only [Axis.numel, Axis.eval]; rw [evalList_acc ρ gs acc]
+    | phys v n => simp [evalList]
+    | sum b t a => simp [evalList]
+
+private theorem productAxis_eq (fs : List Axis) :
+    productAxis fs = (match flat1 fs with | [e] => e | _ => .prod (flat1 fs)) := by
+  rfl
+
+/-- `productAxis` (flatten nested products, unwrap singletons) does not change size or meaning -/
+theorem productAxis_numel (es : List Axis) : (productAxis es).numel = (Axis.prod es).numel := by
+  rw [productAxis_eq, Axis.numel, ← numelList_flat1 es]
+  split
+  · next e h => rw [h]; simp [numelList]
+  · rw [Axis.numel]
+
+theorem productAxis_eval (es : List Axis) (ρ : Nat → Nat) : (productAxis es).eval ρ = (Axis.prod es).eval ρ := by
+  rw [productAxis_eq, Axis.eval, ← evalList_flat1 ρ es]
+  split
+  · next e h => rw [h]; simp [evalList]
+  · rw [Axis.eval]
+
+/-! ### dense -/
+
+private theorem foldl_set_map {β : Type} (f : Ext → Ext) (c : β → Nat) (v : β → Ext) :
+    ∀ (L : List β) (arr : Array Ext),
+    L.foldl (fun a p => a.setIfInBounds (c p) (f (v p))) (arr.map f) =
+      (L.foldl (fun a p => a.setIfInBounds (c p) (v p)) arr).map f
+  | [], arr => rfl
+  | p :: L, arr => by
+    rw [List.foldl_cons, List.foldl_cons, ← Array.map_setIfInBounds, foldl_set_map f c v L]
+
+/-- **pointwise operations**: mapping `f` over the physical elements and over the default denotes mapping
+`f` over the dense tensor (whatever the pattern) -/
+theorem dense_map (t : PT) (f : Ext → Ext) : (t.map f (f t.default)).dense = t.dense.map f := by
+  unfold PT.dense
+  simp only [PT.map, PT.vshape, List.getElem?_map, Option.getD_map, ← Array.map_replicate,
+    ← Array.toList_map]
+  rw [foldl_set_map f]
+
+/-- two patterned tensors over the same physical data denote the same dense data if they have the same
+number of cells and send every physical index to the same flat cell -/
+private theorem dense_congr (t t' : PT) (hp : t'.physical = t.physical) (hpa : t'.paxes = t.paxes)
+    (hd : t'.default = t.default) (hN : numel t'.vshape = numel t.vshape)
+    (hc : ∀ ρ, flat t'.vshape (t'.vaxes.map (Axis.eval ρ)) = flat t.vshape (t.vaxes.map (Axis.eval ρ))) :
+    t'.dense = t.dense := by
+  unfold PT.dense
+  simp only [hp, hpa, hd, hN, hc]
+
+/-- `dense_flatten` needs no well-formedness: both sides have the same number of cells and write the same
+cells in the same order, so even out-of-range and colliding writes agree -/
+theorem dense_flatten' (t : PT) : t.flatten.dense = t.dense := by
+  unfold PT.flatten
+  split
+  · rfl
+  · refine dense_congr t _ ?_ ?_ ?_ ?_ ?_
+    · rfl
+    · rfl
+    · rfl
+    · simp only [PT.vshape, List.map_cons, List.map_nil, numel_cons, numel_nil, productAxis_numel,
+        Axis.numel, numel_map_numel, Nat.mul_one]
+    · intro ρ
+      simp only [PT.vshape, List.map_cons, List.map_nil, flat, numel_nil, productAxis_eval,
+        evalList_eq_flat', Nat.mul_one, Nat.add_zero]
+
+/-- **flatten denotes flatten**: the flat (row-major) dense data is unchanged -/
+theorem dense_flatten (t : PT) (h : t.wf = true) : t.flatten.dense = t.dense :=
+  dense_flatten' t
+
+private theorem unitAxis_numel : unitAxis.numel = 1 := by simp [unitAxis, Axis.numel, numelList]
+private theorem unitAxis_eval (ρ : Nat → Nat) : unitAxis.eval ρ = 0 := by simp [unitAxis, Axis.eval, evalList]
+
+private theorem numel_insert_unit (l1 l2 : List Axis) :
+    numel ((l1 ++ [unitAxis] ++ l2).map Axis.numel) = numel ((l1 ++ l2).map Axis.numel) := by
+  rw [numel_map_numel, numel_map_numel, numelList_append, numelList_append, numelList_append]
+  simp [numelList, unitAxis_numel]
+
+private theorem flat_insert_unit (ρ : Nat → Nat) : ∀ (l1 l2 : List Axis),
+    flat ((l1 ++ [unitAxis] ++ l2).map Axis.numel) ((l1 ++ [unitAxis] ++ l2).map (Axis.eval ρ)) =
+      flat ((l1 ++ l2).map Axis.numel) ((l1 ++ l2).map (Axis.eval ρ))
+  | [], l2 => by
+    simp only [List.nil_append, List.cons_append, List.map_cons, flat, unitAxis_eval]
+    simp
+  | e :: l1, l2 => by
+    have ih := flat_insert_unit ρ l1 l2
+    have hn := numel_insert_unit l1 l2
+    simp only [List.cons_append, List.map_cons, flat] at ih hn ⊢
+    rw [ih, hn]
+
+private theorem dense_insert_unit (t : PT) (l1 l2 : List Axis) (h : t.vaxes = l1 ++ l2) :
+    ({ t with vaxes := l1 ++ [unitAxis] ++ l2 } : PT).dense = t.dense := by
+  refine dense_congr t _ ?_ ?_ ?_ ?_ ?_
+  · rfl
+  · rfl
+  · rfl
+  · simp only [PT.vshape, h]; exact numel_insert_unit l1 l2
+  · intro ρ
+    simp only [PT.vshape, h]; exact flat_insert_unit ρ l1 l2
+
+/-- `dense_unsqueeze` holds for every `dim` (for `dim ≥ rank` the unit axis is appended) -/
+theorem dense_unsqueeze' (t : PT) (dim : Nat) : (t.unsqueeze dim).dense = t.dense :=
+  dense_insert_unit t _ _ (List.take_append_drop dim t.vaxes).symm
+
+/-- **unsqueeze denotes unsqueeze**: inserting a size-1 axis does not change the flat dense data -/
+theorem dense_unsqueeze (t : PT) (dim : Nat) (hd : dim ≤ t.vaxes.length) : (t.unsqueeze dim).dense = t.dense :=
+  dense_unsqueeze' t dim
+
+/-- non-vacuity: the 2×3 physical matrix of the module docstring stores a [6,2,3] tensor -/
+example : (PT.mk [.fin 1, .fin 2, .fin 3, .fin 4, .fin 5, .fin 6] [(0,2),(1,3)]
+            [.prod [.phys 0 2, .phys 1 3], .phys 0 2, .phys 1 3] (.fin 0)).wf = true := by decide
+
+end C06
